@@ -137,6 +137,8 @@ def oracle_real(kind, x, opts, rng_seed):
         n = full.shape[1]
         for cap in (range(1, n + 3) if n <= 6 else [1, 2, 3, n - 1, n, n + 1, n + 2]):
             st, c = _run(lambda: call(cap))
+            if st == 'timeout':
+                continue            # slow run near the time limit: not compared (the uncapped run took about as long)
             if st != 'ok':
                 fails.append('%s(max_imfs=%d) %s although the uncapped run returned %d components' % (kind, cap, st, n))
                 continue
